@@ -31,9 +31,12 @@ fn hex(s: &str) -> String {
     o
 }
 
+static NAN_SIGNED: std::sync::atomic::AtomicBool = std::sync::atomic::AtomicBool::new(false);
+
 fn fmt_f(x: f64) -> String {
     if x.is_nan() {
-        return "nan".into();
+        // the sign of a NaN is printed for inputs only (parent process); results print `nan`
+        return if x.is_sign_negative() && NAN_SIGNED.load(std::sync::atomic::Ordering::Relaxed) { "-nan".into() } else { "nan".into() };
     }
     if x.is_infinite() {
         return if x > 0.0 { "inf".into() } else { "-inf".into() };
@@ -256,9 +259,13 @@ enum Kind {
     /// p = eval_pattern_expr, W/M/H/P = VPL text through parse + Engine (.where/.emit/.having/.pattern)
     CmpX { path: &'static str, op: BinOp },
     Ev { path: &'static str, e: Expr },
+    /// eval_pattern_expr with the bindings of the env as pattern variables
+    EvP { e: Expr },
     Probe { path: &'static str, e: Expr },
     C10 { e: Expr },
     C10T { e: Expr },
+    /// the same through `.where(<e>)`: is the event kept by the folded program
+    C10W { e: Expr },
 }
 
 #[derive(Clone)]
@@ -368,7 +375,7 @@ fn gen_c08(rng: &mut Rng, thorough: bool) -> Cases {
 
 // --- random expressions (C10, C11) -------------------------------------------------------------
 
-fn str_pool() -> Vec<&'static str> { vec!["", "a", "abc", "hello world", "12", "-7", "+5", "9223372036854775808", "h\u{e9}llo", "x y"] }
+fn str_pool() -> Vec<&'static str> { vec!["", "a", "abc", "hello world", "12", "-7", "+5", "9223372036854775808", "h\u{e9}llo", "x y", "  Ab c\t", "\u{a0}x\u{2003}", "aXbXXc", "X", "aaa", "aa", "l", "o w", " ", "ABC def"] }
 
 fn rand_scalar(rng: &mut Rng) -> Value {
     match rng.below(9) {
@@ -452,12 +459,13 @@ const BUILTINS: &[(&str, usize)] = &[
     ("starts_with", 2), ("ends_with", 2), ("substring", 2), ("substring", 3), ("type_of", 1), ("is_null", 1),
     ("is_int", 1), ("is_float", 1), ("is_string", 1), ("is_bool", 1), ("is_array", 1), ("is_map", 1), ("nosuchfn", 1),
     ("log", 1), ("log10", 1), ("exp", 1), ("sin", 1), ("cos", 1), ("tan", 1),
+    ("sort", 1), ("to_string", 1), ("trim", 1), ("lower", 1), ("upper", 1), ("lowercase", 1), ("uppercase", 1),
+    ("split", 2), ("join", 2), ("replace", 3), ("sort", 1), ("split", 2), ("replace", 3), ("join", 2), ("trim", 1),
 ];
 
 /// built-ins outside the Lean model: exercised for panics only
 const UNMODELLED: &[(&str, usize)] = &[
-    ("sort", 1), ("to_string", 1),
-    ("trim", 1), ("lower", 1), ("upper", 1), ("split", 2), ("join", 2), ("replace", 3),
+    ("no_such_builtin", 2), // range is excluded by the property (sizes); everything else is modelled
 ];
 
 struct Gen { arith_bias: bool, allow_to_float_str: bool }
@@ -492,7 +500,8 @@ impl Gen {
                 let mut args: Vec<Expr> = (0..n).map(|_| self.expr(rng, d)).collect();
                 if name == "to_float" && !self.allow_to_float_str {
                     // float parsing of strings is outside the model: keep the argument numeric
-                    args = vec![if rng.chance(1, 2) { id("x") } else { id("y") }];
+                    // (`x` may be shadowed by a string binding: use the float field or a literal)
+                    args = vec![if rng.chance(1, 2) { Expr::Int(rand_int(rng)) } else { id("y") }];
                 }
                 let mut c = call(name, args);
                 if rng.chance(1, 15) {
@@ -556,6 +565,42 @@ fn targeted(rng: &mut Rng) -> Vec<Expr> {
         out.push(bin(BinOp::Div, Expr::Float(f), id("x")));
         out.push(bin(BinOp::Pow, Expr::Float(f), Expr::Int(rng.range(-3, 4))));
     }
+    // string built-ins, formatting, sorting on typed arguments
+    let seps = ["", " ", "X", "aa", "l", "o w", "a", "XX"];
+    for s in str_pool() {
+        let se = Expr::Str(s.to_string());
+        for f in ["trim", "lower", "upper", "lowercase", "uppercase", "reverse", "len", "to_string", "to_int"] { out.push(call(f, vec![se.clone()])); }
+        for sep in seps {
+            out.push(call("split", vec![se.clone(), Expr::Str(sep.to_string())]));
+            out.push(call("replace", vec![se.clone(), Expr::Str(sep.to_string()), Expr::Str("-".into())]));
+            out.push(call("replace", vec![se.clone(), Expr::Str(sep.to_string()), Expr::Str(String::new())]));
+            out.push(call("join", vec![call("split", vec![se.clone(), Expr::Str(sep.to_string())]), Expr::Str("|".into())]));
+            out.push(bin(BinOp::Lt, se.clone(), Expr::Str(sep.to_string())));
+            out.push(bin(BinOp::Ge, se.clone(), Expr::Str(sep.to_string())));
+        }
+    }
+    for f in float_table(true) { out.push(call("to_string", vec![Expr::Float(f)])); out.push(call("to_string", vec![Expr::Float(f / 4.0)])); }
+    for a in ints { out.push(call("to_string", vec![Expr::Int(a)])); }
+    for d in [0u64, 999, 1000, 1_500_000, 999_999_999, 2_000_000_000, 59_000_000_000, 60_000_000_000, 3_599_000_000_000, 3_600_000_000_000, 86_400_000_000_000, 259_200_000_000_001, u64::MAX] {
+        out.push(call("to_string", vec![Expr::Duration(d)]));
+    }
+    out.push(call("to_string", vec![Expr::Array(vec![Expr::Int(1), Expr::Str("a b".into()), Expr::Null, Expr::Bool(true), Expr::Array(vec![]), Expr::Float(2.5)])]));
+    out.push(call("to_string", vec![Expr::Map(vec![("k".into(), Expr::Int(1)), ("x".into(), Expr::Array(vec![Expr::Float(-0.0)]))])]));
+    out.push(call("to_string", vec![id("a")]));
+    out.push(call("to_string", vec![id("m")]));
+    out.push(call("join", vec![id("a"), Expr::Str(", ".into())]));
+    out.push(call("join", vec![Expr::Array(vec![Expr::Str("a".into()), Expr::Int(3), Expr::Float(0.5), Expr::Null]), Expr::Str(String::new())]));
+    let neg_nan = f64::from_bits(0xFFF8_0000_0000_0000);
+    let sort_items = vec![Expr::Float(0.0), Expr::Float(-0.0), Expr::Float(f64::NAN), Expr::Float(neg_nan), Expr::Float(f64::INFINITY), Expr::Float(f64::NEG_INFINITY),
+        Expr::Float(1.5), Expr::Float(-1.5), Expr::Int(3), Expr::Str("b".into()), Expr::Int(-3), Expr::Null, Expr::Str("B".into()), Expr::Bool(false), Expr::Float(0.0), Expr::Int(3), Expr::Str("".into())];
+    for k in 0..sort_items.len() {
+        let mut v = sort_items.clone();
+        v.rotate_left(k);
+        out.push(call("sort", vec![Expr::Array(v.clone())]));
+        v.truncate(5);
+        out.push(call("sort", vec![Expr::Array(v)]));
+    }
+    out.push(call("sort", vec![Expr::Array(vec![bin(BinOp::Div, Expr::Float(0.0), id("y")), Expr::Float(1.0), bin(BinOp::Sub, id("y"), id("y")), Expr::Float(f64::NAN), Expr::Float(-1.0)])]));
     out.push(Expr::Unary { op: UnaryOp::Neg, expr: bx(id("x")) });
     out.push(call("abs", vec![id("x")]));
     out.push(bin(BinOp::Add, id("x"), Expr::Int(1)));
@@ -569,6 +614,58 @@ fn targeted(rng: &mut Rng) -> Vec<Expr> {
     out.push(bin(BinOp::Gt, id("x"), Expr::Timestamp(0)));
     out.push(bin(BinOp::Eq, Expr::OptionalMember { expr: bx(id("m")), member: "k".into() }, Expr::Int(1)));
     out
+}
+
+fn method(recv: Expr, name: &str, args: Vec<Expr>) -> Expr {
+    Expr::Call { func: bx(Expr::Member { expr: bx(recv), member: name.to_string() }), args: args.into_iter().map(Arg::Positional).collect() }
+}
+
+/// expressions of the `.pattern` lambda language over the variable `events` (array of maps), `nums`, `m`
+fn pat_expr(rng: &mut Rng, depth: u32) -> Expr {
+    let d = depth.saturating_sub(1);
+    let arr = |rng: &mut Rng, d: u32| -> Expr {
+        if d == 0 || rng.chance(1, 2) { return id(*rng.pick(&["events", "nums", "mixed", "nested", "zz"])); }
+        match rng.below(5) {
+            0 => method(pat_expr(rng, d), "filter", vec![Expr::Lambda { params: vec![(*rng.pick(&["e", "x"])).to_string()], body: bx(pat_expr(rng, d)) }]),
+            1 => method(pat_expr(rng, d), "map", vec![Expr::Lambda { params: if rng.chance(1, 3) { vec!["a".into(), "b".into()] } else if rng.chance(1, 8) { vec![] } else { vec!["e".into()] }, body: bx(pat_expr(rng, d)) }]),
+            2 => method(pat_expr(rng, d), "flatten", vec![]),
+            3 => method(pat_expr(rng, d), "sliding_pairs", vec![]),
+            _ => id("nums"),
+        }
+    };
+    if depth == 0 {
+        return match rng.below(8) {
+            0 => id("events"), 1 => id("nums"), 2 => id("e"), 3 => id("x"), 4 => Expr::Int(rng.range(-2, 40)),
+            5 => Expr::Float(rng.range(-6, 60) as f64 / 2.0), 6 => id(*rng.pick(&["a", "b", "m", "mixed"])), _ => Expr::Bool(rng.chance(1, 2)),
+        };
+    }
+    match rng.below(12) {
+        0 | 1 => { let a = arr(rng, d); method(a, *rng.pick(&["len", "count", "first", "last", "sum", "avg", "min", "max", "nosuch"]), vec![]) }
+        2 => { let a = arr(rng, d); call(*rng.pick(&["len", "first", "last", "avg", "variance", "sum", "min", "max", "sqrt"]), vec![a]) }
+        3 | 4 => arr(rng, depth),
+        5 => Expr::Member { expr: bx(pat_expr(rng, d)), member: (*rng.pick(&["price", "qty", "k", "name"])).to_string() },
+        6 | 7 => bin(*rng.pick(&[BinOp::Gt, BinOp::Lt, BinOp::Ge, BinOp::Le, BinOp::Eq, BinOp::NotEq, BinOp::And, BinOp::Or, BinOp::Add]), pat_expr(rng, d), pat_expr(rng, d)),
+        8 => Expr::Lambda { params: vec!["events".into()], body: bx(pat_expr(rng, d)) },
+        9 => Expr::Block { stmts: vec![((*rng.pick(&["t", "e"])).to_string(), None, pat_expr(rng, d), false), ("u".into(), None, pat_expr(rng, d), false)], result: bx(if rng.chance(1, 2) { id("t") } else { pat_expr(rng, d) }) },
+        10 => Expr::Member { expr: bx(method(arr(rng, d), *rng.pick(&["first", "last"]), vec![])), member: (*rng.pick(&["price", "qty"])).to_string() },
+        _ => pat_expr(rng, 0),
+    }
+}
+
+fn pat_env(rng: &mut Rng) -> EnvSpec {
+    let ev = |rng: &mut Rng| -> Value {
+        let mut pairs: Vec<(&str, Value)> = vec![("price", rand_num(rng))];
+        if rng.chance(3, 4) { pairs.push(("qty", Value::Int(rng.range(-3, 50)))); }
+        if rng.chance(1, 2) { pairs.push(("name", Value::Str((*rng.pick(&str_pool())).into()))); }
+        Value::map(mk_map(pairs))
+    };
+    let n = rng.below(5);
+    let events = Value::array((0..n).map(|_| ev(rng)).collect());
+    let k = rng.below(6);
+    let nums = Value::array((0..k).map(|_| match rng.below(6) { 0 => Value::Float(rand_float(rng, true)), 1 => Value::Int(rand_int(rng)), 2 => Value::Float(rng.range(-9, 9) as f64 / 2.0), _ => Value::Int(rng.range(-5, 60)) }).collect());
+    let mixed = Value::array((0..rng.below(5)).map(|_| rand_value(rng, 1)).collect());
+    let nested = Value::array((0..rng.below(4)).map(|_| if rng.chance(2, 3) { Value::array((0..rng.below(4)).map(|_| Value::Int(rng.range(0, 9))).collect()) } else { Value::Int(7) }).collect());
+    EnvSpec { etype: "E".into(), fields: vec![], binds: vec![("events".into(), events), ("nums".into(), nums), ("mixed".into(), mixed), ("nested".into(), nested), ("m".into(), ev(rng))] }
 }
 
 fn gen_c11(rng: &mut Rng, thorough: bool) -> Cases {
@@ -609,7 +706,15 @@ fn gen_c11(rng: &mut Rng, thorough: bool) -> Cases {
         let n = 5 + 7 * k;
         let items: Vec<Value> = (0..n).map(|_| match rng.below(4) { 0 => Value::Int(rng.range(-50, 50)), 1 => Value::Float(if rng.chance(1, 4) { f64::NAN } else { rng.range(-50, 50) as f64 / 2.0 }), 2 => Value::Str((*rng.pick(&str_pool())).into()), _ => Value::Null }).collect();
         envs.push(EnvSpec { etype: "E".into(), fields: vec![("a".into(), Value::array(items))], binds: vec![] });
-        cases.push(Case { env: envs.len() - 1, kind: Kind::Probe { path: "e", e: call("sort", vec![id("a")]) } });
+        cases.push(Case { env: envs.len() - 1, kind: Kind::Ev { path: "e", e: call("sort", vec![id("a")]) } });
+    }
+    // `.pattern` lambda language through eval_pattern_expr
+    let n_pat = if thorough { 30000 } else { 4000 };
+    for i in 0..n_pat {
+        if i % 8 == 0 { envs.push(pat_env(rng)); }
+        let env = envs.len() - 1;
+        let depth = 1 + rng.below(4) as u32;
+        cases.push(Case { env, kind: Kind::EvP { e: pat_expr(rng, depth) } });
     }
     // random trees over the modelled fragment
     let g = Gen { arith_bias: false, allow_to_float_str: false };
@@ -661,6 +766,7 @@ fn gen_c10(rng: &mut Rng, thorough: bool) -> Cases {
         cases.push(Case { env: 0, kind: Kind::C10 { e: e.clone() } });
         // the text path builds one Engine per program: every 5th entry in the quick tier
         if (thorough || i % 5 == 0) && vpl(e).is_some() { cases.push(Case { env: 0, kind: Kind::C10T { e: e.clone() } }); }
+        if (thorough || i % 7 == 0) && vpl(e).is_some() { cases.push(Case { env: 0, kind: Kind::C10W { e: bin(BinOp::Eq, e.clone(), e.clone()) } }); }
     }
     // random trees, arithmetic-heavy, literals biased to 0/1/extremes
     let n_rand = if thorough { 60000 } else { 5000 };
@@ -672,7 +778,9 @@ fn gen_c10(rng: &mut Rng, thorough: bool) -> Cases {
         let depth = 1 + rng.below(if thorough { 4 } else { 3 }) as u32;
         let e = if rng.chance(3, 4) { g.expr(rng, depth) } else { g2.expr(rng, depth) };
         cases.push(Case { env, kind: Kind::C10 { e: e.clone() } });
-        if rng.chance(1, if thorough { 6 } else { 15 }) && vpl(&e).is_some() { cases.push(Case { env, kind: Kind::C10T { e } }); }
+        if rng.chance(1, if thorough { 6 } else { 15 }) && vpl(&e).is_some() {
+            if rng.chance(1, 3) { cases.push(Case { env, kind: Kind::C10W { e } }); } else { cases.push(Case { env, kind: Kind::C10T { e } }); }
+        }
     }
     Cases { envs, cases }
 }
@@ -787,6 +895,10 @@ fn eval_case(ch: &mut Child, cs: &Cases, c: &Case) -> String {
             }
         }
         Kind::Ev { path, e } => fmt_res(&if *path == "f" { eval_f(e, env) } else { eval_e(e, env) }),
+        Kind::EvP { e } => {
+            let vars = mk_bindings(&env.binds);
+            fmt_res(&evaluator::eval_pattern_expr(e, &[], SequenceContext::empty(), &Default::default(), &vars))
+        }
         Kind::Probe { path, e } => {
             if *path == "t" {
                 let src = format!("stream S = E .where(({}) == 1) .emit(v: {})", vpl(e).unwrap(), vpl(e).unwrap());
@@ -804,6 +916,20 @@ fn eval_case(ch: &mut Child, cs: &Cases, c: &Case) -> String {
             let fe = match folded.statements.into_iter().next().map(|s| s.node) { Some(Stmt::Expr(x)) => x, _ => gen_error("fold_program changed the statement kind".into()) };
             let f = eval_e(&fe, env);
             format!("{} | {} | {}", fmt_res(&u), fmt_res(&f), fmt_expr(&fe))
+        }
+        Kind::C10W { e } => {
+            let src = format!("stream S = E .where({}) .emit(ok: 1)", vpl(e).unwrap());
+            let program = match varpulis_parser::parse(&src) { Ok(p) => p, Err(_) => return "SKIP-parse".into() };
+            let parsed = program.statements.iter().find_map(|s| match &s.node {
+                Stmt::StreamDecl { ops, .. } => ops.iter().find_map(|o| match o { StreamOp::Where(x) => Some(x.clone()), _ => None }),
+                _ => None });
+            let prog = Program { statements: vec![Spanned::dummy(Stmt::Expr(e.clone()))] };
+            let want = match varpulis_parser::optimize::fold_program(prog).statements.into_iter().next().map(|s| s.node) { Some(Stmt::Expr(x)) => x, _ => return "SKIP-shape".into() };
+            if parsed.as_ref().map(fmt_expr) != Some(fmt_expr(&want)) { return "SKIP-shape".into(); }
+            match run_engine(&ch.rt, &mut ch.engines, &src, env.event(), false) {
+                Err(_) => "SKIP-load".into(),
+                Ok(out) => if out.is_empty() { "dropped".into() } else if out.len() == 1 { "kept".into() } else { format!("outputs={}", out.len()) },
+            }
         }
         Kind::C10T { e } => {
             // `.emit(v: name)` / `.emit(v: "text")` are field copies, not expression evaluation
@@ -909,6 +1035,7 @@ fn count_calls(ctx: &mut Ctx, e: &Expr) {
 
 pub fn run(ctx: &mut Ctx, name: &str) {
     if name == "expr-sub" { child_main(ctx); return; }
+    NAN_SIGNED.store(true, std::sync::atomic::Ordering::Relaxed);
     let cs = gen_cases(name, ctx.seed, ctx.thorough);
     let results = run_children(ctx, name, cs.cases.len());
     let mut cur_env = usize::MAX;
@@ -932,6 +1059,11 @@ pub fn run(ctx: &mut Ctx, name: &str) {
                 count_calls(ctx, e);
                 ctx.case(&format!("ev {} {}", path, fmt_expr(e)), r);
             }
+            Kind::EvP { e } => {
+                ctx.count(&format!("evp:{}", expr_kind(e)));
+                ctx.count(&format!("evp-res:{}", res_class));
+                ctx.case(&format!("evp {}", fmt_expr(e)), r);
+            }
             Kind::Probe { path, e } => {
                 ctx.count(&format!("probe:{}:{}", path, expr_kind(e)));
                 count_calls(ctx, e);
@@ -942,6 +1074,11 @@ pub fn run(ctx: &mut Ctx, name: &str) {
                 let parts: Vec<&str> = r.split(" | ").collect();
                 if parts.len() == 3 { if parts[2] != fmt_expr(e) { ctx.count("c10:fold-changed-the-tree"); } if parts[0] != parts[1] { ctx.count("c10:value-changed"); } }
                 ctx.case(&format!("c10 {}", fmt_expr(e)), r);
+            }
+            Kind::C10W { e } => {
+                if r.starts_with("SKIP") { ctx.count(&format!("c10w:{}", r)); continue; }
+                ctx.count(&format!("c10w:{}", r));
+                ctx.case(&format!("c10w {}", fmt_expr(e)), r);
             }
             Kind::C10T { e } => {
                 if r.starts_with("SKIP") { ctx.count(&format!("c10t:{}", r)); continue; }
